@@ -228,7 +228,7 @@ def gen_rendered(ctx, n):
         qs = [".".join(p) for p, _ in (pre + doc)[:4]]
         qs += [".".join(p[:-1]) for p, _ in doc[:2] if len(p) > 1]
         qs += [q + ".nope" for q in qs[:2]] + ["nope", ""]
-        cases.append("ini %d %s %s %s %s %s %s" % (ow, X(predoc), X(d), L(qs), fmt_assigns(pa), fmt_assigns(da), fmt_items(items)))
+        cases.append("inif %d %s %s %s %s %s %s" % (ow, X(predoc), X(d), L(qs), fmt_assigns(pa), fmt_assigns(da), fmt_items(items)))
     return cases
 
 
@@ -265,7 +265,9 @@ def gen_malformed(ctx, n):
             # a long quoted value that never closes / many continuation lines
             d = b"k = " + rng.choice([b'"', b"'"]) + b"\n".join(bytes(rng.choice(b"ab \t#=\"'") for _ in range(rng.randrange(6))) for _ in range(rng.randrange(30)))
         pre = rng.choice([b"", b"", b"a=0", b"a.b=0\nb=1", b"a=0\n[a]\nb=1"])
-        cases.append("ini %d %s %s %s" % (rng.randrange(2), X(pre), X(d), q))
+        cases.append("inif %d %s %s %s" % (rng.randrange(2), X(pre), X(d), q))
+    for name in ["a.ini", "", "x/y"]:
+        cases.append("nofile %s" % X(name))
     return cases
 
 
@@ -325,9 +327,46 @@ def gen_values(ctx):
     for s in ["1.000", "12.345", "1,5", "1.000.000", "1,000", "1 2.000 3", "1.0001", ".5", "1."]:
         for ty in ["int", "long", "uint", "arr1", "arr3", "vec", "bool"]:
             cases.append("get %s %s" % (ty, X(s)))
-    for s in ["", "5", "x", " 12 ", "12 x"]:
-        cases.append("get intor0 %s" % X(s))
-        cases.append("get intor1 %s" % X(s))
+    for s in ["", "5", "x", " 12 ", "12 x", "yes", "1 2", " a b ", "0"]:
+        for ty in ["intor", "boolor", "longor", "stror", "cstror", "vecor"]:
+            cases.append("get %s0 %s" % (ty, X(s)))
+            cases.append("get %s1 %s" % (ty, X(s)))
+    # further instantiations: other element types, sizes 0/1/2/8, FieldVector, char, short, double
+    for v in lims[:6] + [2**15 - 1, 2**15, 2**15 + 1, 2**16 - 1, 2**16, 2**16 + 1]:
+        for d in deco:
+            for ty in ["short", "ushort", "fv1l", "vecl", "vecu"]:
+                cases.append("get %s %s" % (ty, X(d % v)))
+    C = ["1", "-", " ", "x", "."]
+    for n in range(0, 5):
+        for t in itertools.product(C, repeat=n):
+            st = "".join(t)
+            for ty in ["char", "arr0", "arr2", "arrs2", "bits1", "bits0", "dbl"]:
+                cases.append("get %s %s" % (ty, X(st)))
+    D = ["1", "0", ".", "e", "-", "+", " "]
+    for n in range(0, (5 if quick else 6) + 1):
+        for t in itertools.product(D, repeat=n):
+            cases.append("get dbl %s" % X("".join(t)))
+    dnum = ["0", "-0", "1", "0.1", ".5", "5.", "1e3", "1E-3", "+2.5e+2", "1e308", "1.7976931348623157e308", "1.7976931348623159e308", "1e309",
+            "-1e400", "4.9e-324", "2.4e-324", "1e-400", "123456789012345678901234567890", "0.30000000000000004", "9007199254740993",
+            "1e", "1e+", ".", "-.", "1.2.3", "0x10", "inf", "nan", "1,5", "1d3", "1f", "00.5", "1e05", "1 ", "\t1.5\n", "1.5x", "--1"]
+    for a in dnum:
+        cases.append("get dbl %s" % X(a))
+        cases.append("get vecd %s" % X(a))
+        for b in dnum[:12] + ["x", "", "1e"]:
+            for sep in [" ", "\t", ""]:
+                cases.append("get fv2d %s" % X(a + sep + b))
+                cases.append("get vecd %s" % X(a + sep + b))
+    for _ in range(400 if quick else 4000):
+        n = rng.choice([0, 1, 2, 3, 3, 4, 8, 8, 9])
+        sep = rng.choice([" ", " ", "  ", "\t", "\n"])
+        st = rng.choice(["", " "]) + sep.join(rng.choice(toks) for _ in range(n)) + rng.choice(garbage)
+        for ty in ["fv3", "arr2", "arr0", "vecl", "vecu"]:
+            cases.append("get %s %s" % (ty, X(st)))
+        st = rng.choice(["", " "]) + sep.join(rng.choice(words[:16]) for _ in range(n)) + rng.choice(["", " ", " x"])
+        for ty in ["bits8", "bits1", "bits0", "vecb"]:
+            cases.append("get %s %s" % (ty, X(st)))
+        st = sep.join(rng.choice(["a", "b c".replace(" ", sep), "", "#", "'q'"]) for _ in range(rng.choice([1, 2, 2, 3])))
+        cases.append("get arrs2 %s" % X(st))
     return cases
 
 
@@ -375,16 +414,102 @@ def gen_argv(ctx):
 
 # ------------------------------------------------------------------ oracle
 
+def round_doubles(line):
+    """Model lines carry doubles as exact decimals d:<sign>:<mantissa>:<exp10>; the implementation prints the IEEE bit
+    pattern.  Round correctly (exact rational -> binary64, as a correct strtod does); a value beyond the finite
+    range makes the extraction fail."""
+    import struct
+    from fractions import Fraction
+    if "d:" not in line:
+        return line
+    over = []
+
+    def conv(m):
+        neg, man, ex = m.group(1) == "-", int(m.group(2)), int(m.group(3))
+        try:
+            if man == 0:
+                v = 0.0
+            elif ex > 400 + 20 - len(str(man)):
+                raise OverflowError
+            elif ex < -800:
+                v = 0.0
+            else:
+                v = float(Fraction(man) * Fraction(10) ** ex)
+        except OverflowError:
+            over.append(1)
+            return "d:overflow"
+        if v == float("inf"):
+            over.append(1)
+            return "d:overflow"
+        if neg:
+            v = -v
+        return "d:" + struct.pack(">d", v).hex()
+    out = re.sub(r"d:([+-]):(\d+):(-?\d+)", conv, line)
+    return "EXC RangeError" if over else out
+
+
+DBL_RE = re.compile(r"[ \t\n\x0b\x0c\r]*[+-]?(\d+\.?\d*|\.\d+)([eE][+-]?\d+)?[ \t\n\x0b\x0c\r]*")
+
+
+def spec_double(text):
+    """Independent reading of a floating-point text: blanks, a decimal literal, blanks; correctly rounded; overflow is an error."""
+    import struct
+    if not DBL_RE.fullmatch(text):
+        return "EXC RangeError"
+    try:
+        v = float(text.strip(" \t\n\x0b\x0c\r"))
+    except (ValueError, OverflowError):
+        return "?"
+    if v in (float("inf"), float("-inf")):
+        return "EXC RangeError"
+    return "OK d:" + struct.pack(">d", v).hex()
+
+
+def parse_assigns(f):
+    if f == "-":
+        return []
+    out = []
+    for a in f.split(","):
+        p, v = a.split("=")
+        out.append((tuple(bytes.fromhex(x[1:]) for x in p.split("/")), bytes.fromhex(v[1:])))
+    return out
+
+
+def spec_report(assigns, prefix):
+    """report() of a tree holding exactly these assignments: values then subtrees, each in byte order of the keys."""
+    def rep(node_path, entries):
+        vals = sorted((p[0], v) for p, v in entries if len(p) == 1)
+        out = b"".join(k + b' = "' + v + b'"\n' for k, v in vals)
+        subs = sorted(set(p[0] for p, v in entries if len(p) > 1))
+        for k in subs:
+            out += b"[ " + prefix + b"".join(s + b"." for s in node_path) + k + b" ]\n"
+            out += rep(node_path + (k,), [(p[1:], v) for p, v in entries if len(p) > 1 and p[0] == k])
+        return out
+    return rep((), assigns)
+
+
 def case_kind(c):
     t = c.split()
-    if t[0] == "ini":
-        return "ini:spec" if len(t) >= 7 else "ini:bytes"
+    if t[0] in ("ini", "inif"):
+        return t[0] + (":spec" if len(t) >= 7 else ":bytes")
     if t[0] == "get":
         return "get:" + t[1]
     return t[0]
 
 
-def sig_of(c, impl, spec):
+def sig_of(c, impl, spec, reason=""):
+    if reason.startswith("copy/assignment"):
+        return "C12:tree:copy"
+    if reason.startswith("all readINITree overloads"):
+        return "C12:ini:overload"
+    if reason.startswith("report()"):
+        return "C12:report"
+    if reason.startswith("get(key, const char*)"):
+        return "C12:get:cstr-default"
+    if reason.startswith("const operator[]"):
+        return "C12:tree:const-index"
+    if reason.startswith("sub(key, true)") or reason.startswith("after a non-const sub"):
+        return "C12:tree:sub"
     t = c.split()
     if impl.startswith("CRASH") or impl.startswith("HANG"):
         return "C12:%s:%s" % (t[0], "crash" if impl.startswith("CRASH") else "hang")
@@ -392,7 +517,7 @@ def sig_of(c, impl, spec):
         if t[1].startswith("arr") and impl.startswith("OK") and spec.startswith("EXC"):
             return "C12:range:accepts-malformed"
         return "C12:get:%s" % t[1]
-    if t[0] == "ini":
+    if t[0] in ("ini", "inif"):
         if len(t) >= 8 and hash_in_quoted(t[7]):
             return "C12:ini:hash-in-quoted-value"
         return "C12:ini:tree" if spec.startswith("ok") else "C12:ini:status"
@@ -414,7 +539,14 @@ def oracle(c, impl, spec):
     if impl.startswith("CRASH") or impl.startswith("HANG") or impl.startswith("NOT-RUN"):
         return "arbitrary input must not crash or hang: " + impl
     t = c.split()
-    if t[0] == "ini":
+    if t[0] == "get" and t[1] == "dbl":
+        want = spec_double(bytes.fromhex(t[2][1:]).decode("latin-1"))
+        return None if want == "?" or impl == want else "the text denotes %s" % want
+    if t[0] == "inif":
+        r = oracle_api(t, impl, spec)
+        if r is not None:
+            return r
+    if t[0] in ("ini", "inif"):
         sp = spec.split(" ub=")[0]
         if sp == "?":
             return None
@@ -425,6 +557,53 @@ def oracle(c, impl, spec):
     if spec == "?":
         return None
     return None if impl == spec else "spec says %s" % spec
+
+
+def oracle_api(t, impl, spec):
+    """Self-consistency of the remaining public members on the implementation's own tree (op inif)."""
+    m = re.search(r" C=(.*?) ov=(.*)$", impl)
+    if not m:
+        return "api observation missing"
+    if m.group(1) != "ok":
+        return "copy/assignment/move must give an equal, independent tree: " + m.group(1)
+    if m.group(2) != "ok":
+        return "all readINITree overloads must read the same tree: " + m.group(2)
+    # per query: get(k, const char*) = get(k, std::string); sub(k, true) throws exactly when there is no such
+    # subtree; both const sub() agree on an existing subtree; a non-const sub(k) that returns has created it
+    qm = re.search(r" Q:(\S*)", impl)
+    qs = qm.group(1).split(",") if qm and qm.group(1) else []
+    ex = re.findall(r" c(x[0-9a-f]*|E)o(x[0-9a-f]*|E)T(\{\d+,\d+\}|E)F(\{\d+,\d+\}|E)M(\d+|E)([01E])#(\d+)", impl)
+    for q, (cval, oval, tt, ff, mm_, hs, _) in zip(qs, ex):
+        qq = re.fullmatch(r"h([01E])s([01E])g(x[0-9a-f]*|E)", q)
+        if not qq:
+            continue
+        if cval != qq.group(3):
+            return "get(key, const char*) must agree with get(key, std::string): %s vs %s" % (cval, qq.group(3))
+        if (qq.group(1) == "1" and oval != qq.group(3)) or (qq.group(1) == "0" and oval != "E"):
+            return "const operator[] must return the value of a present key and raise RangeError for an absent one: %s (hasKey %s)" % (oval, qq.group(1))
+        if qq.group(2) == "1" and (tt == "E" or tt != ff):
+            return "sub(key, true) and sub(key, false) must both return the existing subtree: %s / %s" % (tt, ff)
+        if qq.group(2) == "0" and tt != "E":
+            return "sub(key, true) must raise RangeError for a missing subtree, returned %s" % tt
+        if mm_ != "E" and hs != "1":
+            return "after a non-const sub(key) that returned, hasSub(key) must hold (got %s)" % hs
+    sp = spec.split(" ub=")[0]
+    if len(t) >= 7 and sp.startswith("ok ") and impl.startswith(sp + " ") and not (len(t) >= 8 and hash_in_quoted(t[7])):
+        # the tree is the written hierarchy: report() must list exactly it
+        pre, doc, ow = parse_assigns(t[5]), parse_assigns(t[6]), t[1] == "1"
+        merged = list(pre)
+        for p, v in doc:
+            idx = [i for i, (q, _) in enumerate(merged) if q == p]
+            if idx:
+                if ow:
+                    merged[idx[0]] = (p, v)
+            else:
+                merged.append((p, v))
+        want = spec_report(merged, b"P:").hex()
+        got = re.search(r" R=([0-9a-f]*)", impl)
+        if not got or got.group(1) != want:
+            return "report() must list every entry once, values then subtrees in key order: expected " + repr(bytes.fromhex(want))[:300]
+    return None
 
 
 def decode_case(c):
@@ -451,7 +630,7 @@ def build(ctx, san=True):
 
 def split_model(m):
     mm, _, spec = m.partition(" | ")
-    return mm, spec
+    return round_doubles(mm), spec
 
 
 def model_matches(mm, impl):
@@ -472,6 +651,7 @@ def run(ctx):
     cp = os.path.join(V.VERIF, "corpus", "C12", "cases.txt")
     if os.path.exists(cp):
         corpus = [l.rstrip("\n") for l in open(cp) if l.strip() and not l.startswith("#")]
+    corpus = corpus + ["inif" + l[3:] for l in corpus if l.startswith("ini ")]
     streams.append(("corpus", corpus))
     streams.append(("rendered", gen_rendered(ctx, 4000 if quick else 60000)))
     streams.append(("exhaustive", gen_exhaustive_docs(5 if quick else 6)
@@ -517,7 +697,7 @@ def run(ctx):
         reason = oracle(c, a, spec)
         if reason is not None:
             nviol += 1
-            sg = sig_of(c, a, spec)
+            sg = sig_of(c, a, spec, reason)
             persig[sg] = persig.get(sg, 0) + 1
             if persig[sg] <= 5:
                 ctx.violation(sg, {"case": c, "readable": decode_case(c), "impl": a, "model": mm, "spec": spec, "oracle": reason,
